@@ -307,6 +307,54 @@ func endpointRaces(tr string, seed int64) string {
 	return ""
 }
 
+// duplexTraffic: both ends of one PAIR connection send and receive at the same time (different sizes in the two
+// directions) over a real transport, under the race detector: the two directions of a pipe share nothing unsynchronised.
+func duplexTraffic(tr string, seed int64) string {
+	a, b := wire.New("pair"), wire.New("pair")
+	ea, eb := wire.Track(a), wire.Track(b)
+	if _, err := wire.Connect(tr, b, a, eb, ea); err != nil {
+		a.Close()
+		b.Close()
+		return "connect: " + err.Error()
+	}
+	for _, s := range []mangos.Socket{a, b} {
+		_ = s.SetOption(mangos.OptionRecvDeadline, 50*time.Millisecond)
+		_ = s.SetOption(mangos.OptionSendDeadline, 50*time.Millisecond)
+	}
+	stop := make(chan struct{})
+	var wg sync.WaitGroup
+	run := func(name string, f func()) {
+		wg.Add(1)
+		go func() {
+			defer wg.Done()
+			for {
+				select {
+				case <-stop:
+					return
+				default:
+				}
+				guard(name, f)
+			}
+		}()
+	}
+	small, large := make([]byte, 40), make([]byte, 2500)
+	run(tr+" duplex send a", func() { _ = a.Send(small) })
+	run(tr+" duplex send b", func() { _ = b.Send(large) })
+	run(tr+" duplex recv a", func() { _, _ = a.Recv() })
+	run(tr+" duplex recv b", func() { _, _ = b.Recv() })
+	time.Sleep(150 * time.Millisecond)
+	close(stop)
+	wg.Wait()
+	done := make(chan struct{})
+	go func() { guard("close", func() { _ = a.Close(); _ = b.Close() }); close(done) }()
+	select {
+	case <-done:
+	case <-time.After(5 * time.Second):
+		return "deadlock"
+	}
+	return ""
+}
+
 // handshakeRaces: a handshaker (what every stream listener and dialer uses) is closed while handshakes are completing:
 // Close walks the connections still in the work queue while their workers finish.
 func handshakeRaces(seed int64) string {
@@ -377,6 +425,10 @@ func main() {
 		}
 	}
 	if only == "" || only == "endpoints" {
+		for i, tr := range wire.Transports {
+			res := duplexTraffic(tr, seed*53+int64(i))
+			fmt.Printf("scenario duplex/%s %s\n", tr, map[bool]string{true: "ok", false: res}[res == ""])
+		}
 		res := handshakeRaces(seed*91 + 5)
 		fmt.Printf("scenario endpoints/handshaker %s\n", map[bool]string{true: "ok", false: res}[res == ""])
 	}
